@@ -43,6 +43,8 @@ EVENT_FORMS = {
     'dp': ('data', 'hdr', ['250 OK', 'l2']),
     'de': ('data', '', ['', 'x y']),          # the body starts with an (almost) empty line: leading whitespace is payload
     'ms': ('multi', '', ['  lead', 'b']),     # continuation line that begins with spaces
+    'dd': ('data', 'hdr', [' .', 'b']),            # ' .' (followed by the marker) is data; only '.' alone ends the block
+    'db': ('data', 'hdr', ['a', None, None, 'b']),   # blank lines (None = really empty) inside the data block are payload
 }
 REPLY_SHAPES = ['M1', 'D', 'EM']
 
@@ -126,7 +128,7 @@ def norm_payload(p):
 
 def ref_payload(marker, form_key):
     form, first, rest = EVENT_FORMS[form_key]
-    lines = [first] + [('%s %s' % (r, marker)) for r in rest]
+    lines = [first] + [('' if r is None else '%s %s' % (r, marker)) for r in rest]
     if first:
         lines[0] = '%s %s' % (first, marker) if form == 'single' else first
     return lines
@@ -404,7 +406,7 @@ def check_setevents(env, ctl, viol):
 # families
 
 def route_cases(tier):
-    forms = ['s', 's0', 'm', 'mp', 'd', 'dp', 'de', 'ms']
+    forms = ['s', 's0', 'm', 'mp', 'd', 'dp', 'de', 'ms', 'db']
     names = [SUB, UNSUB, UNKNOWN]
     singles = [((n, f),) for n in names for f in forms]
     doubles = [((n1, f1), (n2, f2)) for n1 in names for f1 in forms for n2 in names for f2 in forms
